@@ -9,13 +9,20 @@ from .cw20 import lazy_forced, expired, spec_eq, resolve, slot_map
 GROUP, STAKE = "cw4-group", "cw4-stake"
 
 
-def group_state(I, ctx, crate, n=3, nhooks=2, ordered=False, changelog="empty"):
-    """admin / hooks / members / total of a cw4 contract; the snapshot bookkeeping maps start empty unless a spec fills them"""
-    U = universe(ctx, n, "m", ordered=ordered)
+def group_state(I, ctx, crate, n=3, nhooks=2, ordered=False, changelog="empty", large=False):
+    """admin / hooks / members / total of a cw4 contract; the snapshot bookkeeping maps start empty unless a spec fills them.
+    large=True: n concrete (valid, sorted) addresses, all of them members with symbolic weights — a group bigger than a list page"""
+    if large:
+        from mirsym import replay as _rp
+        U = sorted(_rp.addr_pool(n, prefix="member"))
+    else:
+        U = universe(ctx, n, "m", ordered=ordered)
     sym_item(I, ctx, "admin", "Option<Addr>", crate, present=True)
     ctx.bounds["vec"] = nhooks
     sym_item(I, ctx, "cw4-hooks", "Vec<Addr>", crate)
-    sym_map(I, ctx, "members", [(a,) for a in U], "u64", crate)
+    ms = sym_map(I, ctx, "members", [(a,) for a in U], "u64", crate)
+    if large:
+        for sl in ms.slots: sl[1] = True
     sym_item(I, ctx, "total", "u64", crate, present=True)
     ctx.storage["members__checkpoints"] = MapStore("members__checkpoints", [], ["u64"], "u32")
     ctx.storage["total__checkpoints"] = MapStore("total__checkpoints", [], ["u64"], "u32")
